@@ -58,6 +58,11 @@ def run(ctx):
                                    ["update", {"wdm_params": 0}], ["read", ["_unnormalised_lnT", "power", "delta_k"]]]))
     hs.append(H("MassFunctionWDM", 0, [["read", ["dndm"]], ["update", {"wdm_params": 4, "z": 1}], ["read", ["_unnormalised_lnT", "dndm"]],
                                        ["update", {"wdm_params": 0}], ["read", ["_unnormalised_lnT", "sigma", "dndm"]]]))
+    # a failure of another exception class (ImportError: the optional halomod is missing), corrected, followed by a switch change
+    hs.append(H("MassFunction", 0, [["read", ["dndm"]], ["update", {"hmf_model": 2, "mdef_model": 2, "disable_mass_conversion": 1}], ["read", ["dndm", "ngtm"]],
+                                    ["update", {"disable_mass_conversion": 0}], ["read", ["dndm"]], ["update", {"use_splined_growth": 1}], ["read", ["dndm", "growth_factor", "dndlnm"]],
+                                    ["update", {"takahashi": 1}], ["read", ["nonlinear_power", "dndm"]]]))
+    NFIXED = 4
     for cn in classes:
         for _ in range(per if cn != "Cosmology" else 2):
             hs.append(fault_history(r, cn))
@@ -81,7 +86,7 @@ def run(ctx):
                                       "replay": {"kind": "real-history", "history": hmin.to_json(), "script": realfuzz.describe(hmin),
                                                  "violation": vv, "tree": tree_hash()}})
     # the final "read everything after correction" must not raise at all
-    for h in hs[3: 3 + (10 if quick else 60)]:       # (the three fixed histories do not end with a full correction)
+    for h in hs[NFIXED: NFIXED + (10 if quick else 60)]:       # (the fixed histories do not end with a full correction)
         bad = final_all_readable(h)
         if bad and not out["violations"]:
             final_unreadable += 1
